@@ -76,6 +76,11 @@ TopFields(v) ==
      F("top/depth", "int", "depth"), F("top/origin_server_ts", "int", "ts"),
      F("top/hashes", "json", "hashes"), F("top/hashes/sha256", "hash", "hashes"),
      F("top/signatures", "sigs", "signatures"), F("top/signatures/*key", "server", "signatures"),
+     \* one entry of the signatures object, next to the others: under the name of the server that will countersign the
+     \* event (the local server of the handlers), of the sender's server (the Sign operation), of the inviter's
+     \* signing name in PerformInvite, and of a third server
+     F("top/signatures/@local", "sigentry", "signatures"), F("top/signatures/@sender", "sigentry", "signatures"),
+     F("top/signatures/@inviter", "sigentry", "signatures"), F("top/signatures/@third", "sigentry", "signatures"),
      F("top/sender", "pseudokey", "sender"), F("top/x_unknown", "json", "unknown"), F("content/x_unknown", "json", "content"),
      F("spelling", "spelling", "spelling"),
      F("top/unsigned", "json", "unsigned"),
@@ -136,6 +141,7 @@ ClassesEdge(kind) ==
       [] kind \in {"server", "userkey"} -> {"empty", "short_b64"}
       [] kind = "json" -> {"null", "array"}
       [] kind = "sigs" -> {"sig_good_and_short", "sig_two_keys"}
+      [] kind = "sigentry" -> {"null", "empty_obj", "string", "number"}
       [] kind = "int" -> {"zero", "int_2p53", "int64_over", "int64_min"}
       [] kind = "refs" -> {"empty", "dup", "self"}
       [] kind \in {"str", "hash", "rv", "hv", "token"} -> {"missing", "empty_str"}
@@ -155,6 +161,7 @@ ClassesFor(kind, depth) ==
          [] kind \in {"server", "userkey"} -> ids
          [] kind = "json" -> vals
          [] kind = "sigs" -> vals \cup SigShapes
+         [] kind = "sigentry" -> {"null", "empty_obj", "string", "number", "array", "true", "object"}
          [] kind = "pseudokey" -> PseudoKeys
          [] kind = "spelling" -> Spellings
          [] kind = "int" -> nums \cup WrongTypes
